@@ -35,6 +35,10 @@ pub struct Profile {
     pub initial_cons: bool,
     pub stall_pm: u32,
     pub locality_pct: u32,
+    /// only content that has an XML representation (a non-empty prefix is never bound to the
+    /// empty namespace name, no "--" in comments); C10's repair clause needs this, the others do not
+    #[serde(default)]
+    pub representable_ns_only: bool,
 }
 
 impl Profile {
@@ -63,6 +67,7 @@ impl Profile {
             initial_cons: !rng.pct(10),
             stall_pm: *rng.pick(&[0u32, 0, 30, 100]),
             locality_pct: *rng.pick(&[0u32, 50, 80, 95]),
+            representable_ns_only: false,
         }
     }
 }
@@ -312,7 +317,7 @@ fn try_gen_op(m: &Model, rng: &mut Rng, prof: &Profile, home: &[Lid]) -> Option<
             0 => Op::NewDocument,
             1 | 2 | 3 => Op::NewElement { name: gen_name(rng) },
             4 | 5 => Op::NewText { s: gen_text(rng) },
-            6 => Op::NewComment { s: rng.pick(&COMMENTS).to_string() },
+            6 => Op::NewComment { s: if rng.pct(8) && !prof.representable_ns_only { "a--b".to_string() } else { rng.pick(&COMMENTS).to_string() } },
             7 => Op::NewPI {
                 target: Nm::new(rng.pick_str(&PI_TARGETS), ""),
                 data: if rng.pct(60) { Some(rng.pick(&PI_DATA).to_string()) } else { None },
@@ -322,7 +327,7 @@ fn try_gen_op(m: &Model, rng: &mut Rng, prof: &Profile, home: &[Lid]) -> Option<
                 // only the default namespace can be undeclared: a non-empty prefix is never
                 // bound to the empty namespace name (such a node has no XML representation)
                 let prefix = gen_prefix(rng);
-                let uri = if prefix.is_empty() { gen_uri(rng) } else { rng.pick_str(&URIS).to_string() };
+                let uri = if prefix.is_empty() || !prof.representable_ns_only { gen_uri(rng) } else { rng.pick_str(&URIS).to_string() };
                 Op::NewNs { prefix, uri }
             }
         }),
@@ -437,7 +442,7 @@ fn try_gen_op(m: &Model, rng: &mut Rng, prof: &Profile, home: &[Lid]) -> Option<
                 }
             } else {
                 let prefix = ns_key(m, e, rng);
-                let uri = rng.pick(&URIS).to_string();
+                let uri = if !prof.representable_ns_only && rng.pct(8) { String::new() } else { rng.pick(&URIS).to_string() };
                 match rng.below(8) {
                     0 | 1 => Op::NsInsert { e, prefix, uri },
                     2 => Op::NsRemove { e, prefix },
@@ -461,7 +466,18 @@ fn try_gen_op(m: &Model, rng: &mut Rng, prof: &Profile, home: &[Lid]) -> Option<
             let c = if fault { p.any(rng)? } else { p.kind(rng, k)? };
             match rng.below(6) {
                 0 | 1 | 2 => {
-                    let pe = if fault { p.any(rng)? } else { p.kind(rng, K::Elem)? };
+                    // re-appending a node to the element it already sits on is a case of its own
+                    let own = m.n(c).parent.filter(|_| rng.pct(30));
+                    let pe = match own {
+                        Some(o) => o,
+                        None => {
+                            if fault {
+                                p.any(rng)?
+                            } else {
+                                p.kind(rng, K::Elem)?
+                            }
+                        }
+                    };
                     Some(match rng.below(3) {
                         0 => Op::AnyAppend { p: pe, c },
                         _ => {
@@ -519,7 +535,7 @@ fn try_gen_op(m: &Model, rng: &mut Rng, prof: &Profile, home: &[Lid]) -> Option<
             Some(match rng.below(5) {
                 0 | 1 => Op::AppendText { p: pn, s: gen_text(rng) },
                 2 => Op::AppendElement { p: pn, name: gen_name(rng) },
-                3 => Op::AppendComment { p: pn, s: rng.pick(&COMMENTS).to_string() },
+                3 => Op::AppendComment { p: pn, s: if rng.pct(12) && !prof.representable_ns_only { "a--b".to_string() } else { rng.pick(&COMMENTS).to_string() } },
                 _ => Op::AppendPI {
                     p: pn,
                     target: Nm::new(rng.pick_str(&PI_TARGETS), ""),
